@@ -223,3 +223,49 @@ Proof.
     repeat match goal with |- context [if ?c then _ else _] => destruct c eqn:? end;
     cbn [l_acc fst snd]; rewrite ?upd_other by (intro; subst; tauto); reflexivity.
 Qed.
+
+(* ------------------------------------------------------------------ totals over ANY address set (dom need not contain the
+   touched account): used for per-account statements (dom = [a]) *)
+Definition member (a : Z) (dom : list Z) : bool := existsb (Z.eqb a) dom.
+Lemma member_in a dom : member a dom = true <-> In a dom.
+Proof.
+  unfold member. rewrite existsb_exists. split.
+  - intros [x [Hx E]]. apply Z.eqb_eq in E. subst. exact Hx.
+  - intros H. exists a. split; [exact H|apply Z.eqb_refl].
+Qed.
+Lemma member_not_in a dom : member a dom = false -> ~ In a dom.
+Proof. intros H C. apply member_in in C. congruence. Qed.
+
+Lemma energy_add_eng_any T S l a amt dom : NoDup dom ->
+  sum_eng T S dom (l_acc (energy_add T S l a amt)) = sum_eng T S dom (l_acc l) + (if member a dom then amt else 0).
+Proof.
+  intros ND. destruct (member a dom) eqn:M.
+  - apply member_in in M. apply energy_add_eng; assumption.
+  - apply member_not_in in M. unfold sum_eng, energy_add. destruct (amt =? 0); [lia|].
+    unfold set_energy, set_acc; cbn [l_acc]. rewrite sumf_upd_notin by exact M. lia.
+Qed.
+Lemma energy_add_bal_any T S l a amt dom : NoDup dom ->
+  sum_bal dom (l_acc (energy_add T S l a amt)) = sum_bal dom (l_acc l).
+Proof.
+  intros ND. destruct (member a dom) eqn:M.
+  - apply member_in in M. apply energy_add_bal; assumption.
+  - apply member_not_in in M. unfold sum_bal, energy_add. destruct (amt =? 0); [reflexivity|].
+    unfold set_energy, set_acc; cbn [l_acc]. rewrite sumf_upd_notin by exact M. reflexivity.
+Qed.
+Lemma energy_sub_eng_any T S l a amt dom : NoDup dom ->
+  sum_eng T S dom (l_acc (fst (energy_sub T S l a amt))) =
+  sum_eng T S dom (l_acc l) - (if snd (energy_sub T S l a amt) && member a dom then amt else 0).
+Proof.
+  intros ND. destruct (member a dom) eqn:M.
+  - apply member_in in M. rewrite energy_sub_eng by assumption. rewrite andb_true_r. reflexivity.
+  - apply member_not_in in M. rewrite andb_false_r. unfold sum_eng, energy_sub. destruct (amt =? 0); [cbn; lia|].
+    destruct (_ <? amt); [cbn; lia|]. unfold set_energy, set_acc; cbn [fst l_acc]. rewrite sumf_upd_notin by exact M. lia.
+Qed.
+Lemma energy_sub_bal_any T S l a amt dom : NoDup dom ->
+  sum_bal dom (l_acc (fst (energy_sub T S l a amt))) = sum_bal dom (l_acc l).
+Proof.
+  intros ND. destruct (member a dom) eqn:M.
+  - apply member_in in M. apply energy_sub_bal; assumption.
+  - apply member_not_in in M. unfold sum_bal, energy_sub. destruct (amt =? 0); [reflexivity|].
+    destruct (_ <? amt); [reflexivity|]. unfold set_energy, set_acc; cbn [fst l_acc]. rewrite sumf_upd_notin by exact M. reflexivity.
+Qed.
